@@ -1,3 +1,5 @@
+//go:build kvh_all || kvh_c07 || kvh_c08
+
 package all
 
 import _ "kvh/engines/blobstore"
